@@ -288,7 +288,7 @@ def run_sequence(case, k, rng, base, res, bump, tier):
     except Exception as e:  # pylint: disable=broad-except
         if label:
             # hostile constructs of a gated slice (e.g. recursion cycles): graph construction itself is C21's subject
-            res.setdefault('skipped', []).append(PL.loki_frame(e))
+            bump('gated_projects_without_graph')
             return False, spec
         res['inconclusive'] = 'scheduler construction failed on the original project: ' + PL.loki_frame(e) + str(e)[:200]
         return False, spec
